@@ -33,6 +33,11 @@ pub enum Fault {
     /// The hook returns an `io::Error` at the k-th hit; the real error path runs.
     /// `interrupted` selects `ErrorKind::Interrupted` (which `write_all` retries) instead of `Other`.
     Fail { point: String, k: usize, #[serde(default)] interrupted: bool },
+    /// Like `Fail`, with a particular kind of `io::Error` (code that treats some kinds specially -
+    /// "permission denied: fall back", "not found: ignore" - only shows under those):
+    /// permission_denied | not_found | already_exists | would_block | invalid_data | unexpected_eof |
+    /// out_of_memory | timed_out | write_zero | unsupported
+    FailKind { point: String, k: usize, error: String },
     /// Every write to the metadata file takes at most `max` bytes (short writes).
     ShortWrites { max: usize },
     /// Injected from outside with ptrace (`strace -e inject=`): at the `when`-th call (1-based, counted
@@ -133,6 +138,23 @@ pub enum Op {
         schedule: Vec<u8>,
         #[serde(default)]
         iso_fresh: Option<Mode>,
+    },
+    /// A handle that stays in use while the data directory is recovered by another open in the same
+    /// process: the metadata file is removed (so that the next open recreates the index from scratch),
+    /// a second `Db::open()` into `slot` is held for `hold_ms` milliseconds of real time at the hook
+    /// point `hold_point`, and `ask_after_ms` into that pause another thread asks the database in
+    /// `watch_slot` for the own words of the constants in `only` (C16 judgement). Real time is used
+    /// because what this is after is a background thread of the search library that polls the
+    /// directory on a timer; on a tree without such a thread the outcome does not depend on timing.
+    /// Skipped when the database type is not `Sync`.
+    OpenBeside {
+        slot: usize,
+        watch_slot: usize,
+        hold_point: String,
+        hold_ms: u64,
+        ask_after_ms: u64,
+        #[serde(default)]
+        only: Option<Vec<usize>>,
     },
     /// Drop the database in `slot`.
     Drop { slot: usize },
